@@ -61,8 +61,11 @@ func c19results(n int) []model.ProviderResult {
 }
 
 // the server side of a find endpoint built on the response writer
+// c19opts: further options the server passes to the response writer
+var c19opts []Option
+
 func c19serve(w http.ResponseWriter, r *http.Request, results []model.ProviderResult, preferJson bool) {
-	rw, err := New(w, r, WithPreferJson(preferJson))
+	rw, err := New(w, r, append([]Option{WithPreferJson(preferJson)}, c19opts...)...)
 	if err == nil {
 		pw := NewProviderResponseWriter(rw)
 		for _, pr := range results {
@@ -135,6 +138,11 @@ func VerifC19_WriterToClient() {
 	if n == 0 {
 		verif_Assert(rt.rec.status == http.StatusNotFound, "an empty result set is not-found on the wire")
 		verif_Assert(len(resp.MultihashResults) == 0, "an empty result set is an empty response, without error, at the client")
+		// the caller owns the response it was given (it may merge other results into
+		// it): the next not-found lookup is empty all the same
+		resp.MultihashResults = append(resp.MultihashResults, model.MultihashResult{Multihash: mh})
+		again, aerr := c.Find(context.Background(), mh)
+		verif_Assert(aerr == nil && again != nil && len(again.MultihashResults) == 0, "every not-found lookup returns an empty response, whatever the caller did with an earlier one")
 		return
 	}
 	verif_Assert(rt.rec.status == http.StatusOK && rt.rec.hdr.Get("Content-Type") == "application/json", "JSON mode: status 200 and JSON content type")
@@ -178,6 +186,48 @@ func VerifC19_Streaming() {
 		verif_Assert(rec.flushAt[i] == i+1, "streaming: each result is flushed before the next is written")
 		var pr model.ProviderResult
 		verif_Assert(c19decodeLine(w, &pr) && pr.Provider != nil && pr.Equal(results[i]), "streaming: each line decodes to the result that was written, in order")
+	}
+}
+
+// C19 (configured resource types): a server that names its CID or multihash
+// path element differently serves exactly those paths: the option for one
+// resource type does not change the other, the replaced default is refused.
+func VerifC19_ConfiguredPathTypes() {
+	cidElem := []string{"", "c"}[verif_Choose("cidPathType", 0, 1)]
+	mhElem := []string{"", "mh"}[verif_Choose("multihashPathType", 0, 1)]
+	var opts []Option
+	wantCid, wantMh := "cid", "multihash"
+	if cidElem != "" {
+		opts = append(opts, WithCidPathType(cidElem))
+		wantCid = cidElem
+	}
+	if mhElem != "" {
+		opts = append(opts, WithMultihashPathType(mhElem))
+		wantMh = mhElem
+	}
+	if verif_Bool("optionsInReverseOrder") && len(opts) == 2 {
+		opts[0], opts[1] = opts[1], opts[0]
+	}
+	elem := []string{"cid", "multihash", "c", "mh"}[verif_Choose("requestedPathElement", 0, 3)]
+	key := c19mh().B58String()
+	isCid := elem == wantCid
+	if isCid {
+		key = "bafkqaaa"
+	}
+	rec := &c19rec{hdr: http.Header{}, status: http.StatusOK}
+	req := &http.Request{Method: http.MethodGet, URL: &url.URL{Path: "/" + elem + "/" + key}, Header: http.Header{"Accept": {"application/json"}}}
+	rw, err := New(rec, req, opts...)
+	verif_Reach("returned")
+	if elem == wantCid || elem == wantMh {
+		verif_Assert(err == nil && rw != nil, "a request on a configured resource type is served")
+		if rw != nil {
+			verif_Assert(rw.PathType() == elem, "the writer reports the resource type of the request")
+			if !isCid {
+				verif_Assert(bytes.Equal(rw.Multihash(), c19mh()), "the key is read as what its resource type says")
+			}
+		}
+	} else {
+		verif_Assert(err != nil && rw == nil, "a resource type the server is not configured for is refused")
 	}
 }
 
